@@ -51,6 +51,14 @@ def gen(rng, tier):
         else:
             t.insert(i, rng.choice("0aFx "))
         add("".join(t), "mutated")
+    # multi-byte characters placed across every byte offset of a text with the right BYTE length
+    for mb in ("é", "€", "😀"):
+        w = len(mb.encode())
+        for total, pre in ((130, ""), (130, "0x")):
+            for k in range(0, total - w + 1):
+                body = good[2:][:k] + mb + good[2:][k:total - w]
+                assert len(body.encode()) == total
+                add(pre + body, "utf8-straddle")
     for t in ["", "0x", "0X" + good[2:], " " + good, good + " ", good + "\n", "0x0x" + good[2:], "1b", "0x1b"]:
         add(t, "malformed", nt=False)
     return cases
